@@ -34,9 +34,20 @@ def oracle_ints(case, variants=True):
     forms = [('list', list(case))]
     if variants and all(0 <= b <= 255 for b in case):
         forms += [('bytes', bytes(case)), ('bytearray', bytearray(case)), ('tuple', tuple(case))]
+    if variants and case and all(isinstance(b, int) and not isinstance(b, bool) for b in case):
+        # sequences of integers that keep their items in machine words of other widths (array.array, a memoryview of one): the items are
+        # the same integers, so the answer is the same
+        import array
+        for code, lo, hi in (('B', 0, 255), ('b', -128, 127), ('H', 0, 65535), ('h', -32768, 32767), ('i', -2 ** 31, 2 ** 31 - 1), ('Q', 0, 2 ** 64 - 1)):
+            if all(lo <= b <= hi for b in case):
+                forms.append(('array(%r)' % code, array.array(code, case)))
+                if code in 'Hi':
+                    forms.append(('memoryview of array(%r)' % code, memoryview(array.array(code, case))))
+    accepted = []
     for fname, data in forms:
         try:
             m = mido.Message.from_bytes(data)
+            accepted.append(fname)
         except ValueError:
             continue
         except Exception as e:  # noqa: BLE001
@@ -53,6 +64,8 @@ def oracle_ints(case, variants=True):
             back.append(0)
         except AttributeError:
             pass
+    if accepted and len(accepted) != len(forms):
+        return ('forms-differ', 'the integers %r are accepted as %s but refused as %s' % (list(case), ', '.join(accepted), ', '.join(f for f, _ in forms if f not in accepted)))
     if True:
         canon.noise()
         try:
